@@ -218,6 +218,10 @@ func c04One(r *core.Run, sc scn, seed int64, f *fault) {
 		}
 		return
 	}
+	if o.InjectedAfterEnd && (strings.HasPrefix(f.Kind, "exception") || f.Kind == "unknown-packet" || f.Kind == "unexpected-packet" || f.Kind == "drop-connection") {
+		r.Count("injection_after_query_completed", 1)
+		return
+	}
 	if o.Err == nil {
 		r.SetAdd("outcomes", "open-after-success")
 		if strings.HasPrefix(f.Kind, "exception") || f.Kind == "corrupt" || f.Kind == "unknown-packet" || f.Kind == "unexpected-packet" || f.Kind == "drop-connection" {
@@ -256,7 +260,7 @@ func c04One(r *core.Run, sc scn, seed int64, f *fault) {
 		fail("followup-ping-hangs:"+f.Kind, "the follow-up Ping did not return")
 		return
 	}
-	if perr != nil && conn.QueueLen() > 0 && strings.HasPrefix(f.Kind, "exception") {
+	if perr != nil && (conn.QueueLen() > 0 || o.InjectedAfterEnd) && strings.HasPrefix(f.Kind, "exception") {
 		// the injected exception arrived after the scenario's own terminal packet had been consumed
 		r.Count("injection_after_query_completed", 1)
 		return
